@@ -632,13 +632,23 @@ func Flush() {
 		for h := range r.hashes {
 			buf = binary.LittleEndian.AppendUint64(buf, h)
 		}
-		os.WriteFile(hf, buf, 0o644)
+		writeAtomically(hf, buf)
 		sf := shardFile{r.Property, r.Level, r.Rule, r.Assume, r.evals, r.nontrivial, r.discarded, r.classes, r.excluded, r.subs,
 			r.exhaustive, r.samples, r.violations, r.known, r.extra, hf, time.Since(r.start).Seconds()}
 		b, _ := json.Marshal(sf)
-		os.WriteFile(base+"."+r.Property+".json", b, 0o644)
+		writeAtomically(base+"."+r.Property+".json", b)
 		r.mu.Unlock()
 	}
+}
+
+// writeAtomically: a native fuzz worker is stopped from outside at any moment; a reader must never see half a file.
+func writeAtomically(path string, data []byte) {
+	tmp := fmt.Sprintf("%s.tmp%d", path, os.Getpid())
+	if err := os.WriteFile(tmp, data, 0o644); err != nil {
+		os.Remove(tmp)
+		return
+	}
+	os.Rename(tmp, path)
 }
 
 // Main is the TestMain body of every harness package.
